@@ -396,6 +396,141 @@ def single_edits(schema, rng, per_rule_cap=6):
                 add("wrong-kind-reference", "valueRef-malformed", True, "level", li, lambda l, s, fi=fi: setattr(l.fields[fi], "value_ref", "nodot"))
                 break
 
+    # ------------------------------------------------------------ rules the line coverage of sbeppc showed no edit ever broke
+    # (tools/coverage_sbeppc.sh, fourth session).  Each edit appends its own small fixture (types with a trailing `_` cannot
+    # collide with generated names) to the first message, so it applies to every schema shape; the accepted twin of every
+    # rejected fixture differs in exactly the offending attribute.
+    def fx(rule, where, reject, build):
+        def apply(s):
+            build(s, s.messages[0])
+        edits.append(Edit(rule, where, reject, apply))
+
+    def fx_enums(s):
+        s.types.append(S.Enum("FxE16_", "uint16", [S.EnumValue("small", "3"), S.EnumValue("big", "300")]))
+        s.types.append(S.Enum("FxE8_", "uint8", [S.EnumValue("one", "1"), S.EnumValue("two", "2")]))
+
+    def field(mg, name, typ, **kw):
+        mg.fields.append(S.Field(name, 64010 + len(mg.fields), typ, **kw))
+
+    if schema.messages:
+        # constant field of a primitive/type: valueRef must exist, name an enum, name one of its values, and fit the field type
+        fx("value-not-representable", "valueRef-value-beyond-field-type", True,
+           lambda s, mg: (fx_enums(s), field(mg, "fxk_", "uint8", presence="constant", value_ref="FxE16_.big")))
+        fx("value-at-extreme", "valueRef-value-fits-field-type", False,
+           lambda s, mg: (fx_enums(s), field(mg, "fxk_", "uint8", presence="constant", value_ref="FxE16_.small")))
+        fx("wrong-kind-reference", "field-valueRef-names-a-type", True,
+           lambda s, mg: (fx_enums(s), s.types.append(S.Type("FxT_", "uint8")),
+                          field(mg, "fxk_", "uint8", presence="constant", value_ref="FxT_.one")))
+        fx("wrong-kind-reference", "field-valueRef-names-a-composite", True,
+           lambda s, mg: (fx_enums(s), s.types.append(S.Composite("FxC_", [S.Type("one", "uint8")])),
+                          field(mg, "fxk_", "uint8", presence="constant", value_ref="FxC_.one")))
+        fx("malformed-constant", "constant-field-without-valueRef", True,
+           lambda s, mg: field(mg, "fxk_", "uint8", presence="constant"))
+        fx("malformed-constant", "constant-enum-field-without-valueRef", True,
+           lambda s, mg: (fx_enums(s), field(mg, "fxk_", "FxE8_", presence="constant")))
+        fx("wrong-kind-reference", "constant-enum-field-valueRef-of-another-enum", True,
+           lambda s, mg: (fx_enums(s), field(mg, "fxk_", "FxE8_", presence="constant", value_ref="FxE16_.small")))
+        fx("value-at-extreme", "constant-enum-field-valueRef-of-its-enum", False,
+           lambda s, mg: (fx_enums(s), field(mg, "fxk_", "FxE8_", presence="constant", value_ref="FxE8_.two")))
+        fx("value-at-extreme", "constant-enum-field-valueRef-case-differs", False,
+           lambda s, mg: (fx_enums(s), field(mg, "fxk_", "fxe8_", presence="constant", value_ref="FXE8_.two")))
+        fx("wrong-kind-reference", "constant-composite-field", True,
+           lambda s, mg: (s.types.append(S.Composite("FxC_", [S.Type("one", "uint8")])),
+                          field(mg, "fxk_", "FxC_", presence="constant")))
+        # (not edited: `presence="constant"` on a field whose type is a set or a named non-constant <type> -- sbeppc
+        # documents that the presence of the *type* wins there, silently; such schemas are accepted by design)
+        # constant <type>: exactly one of value / valueRef; non-char constants are scalars
+        fx("malformed-constant", "constant-type-without-value", True,
+           lambda s, mg: (s.types.append(S.Type("FxK_", "uint8", presence="constant")), field(mg, "fxk_", "FxK_")))
+        fx("malformed-constant", "constant-type-with-value-and-valueRef", True,
+           lambda s, mg: (fx_enums(s), s.types.append(S.Type("FxK_", "uint8", presence="constant", const="1", value_ref="FxE8_.one")),
+                          field(mg, "fxk_", "FxK_")))
+        fx("malformed-constant", "numeric-constant-type-with-length-2", True,
+           lambda s, mg: (s.types.append(S.Type("FxK_", "uint8", presence="constant", const="1", length=2)), field(mg, "fxk_", "FxK_")))
+        fx("value-at-extreme", "numeric-constant-type-with-length-1", False,
+           lambda s, mg: (s.types.append(S.Type("FxK_", "uint8", presence="constant", const="1", length=1)), field(mg, "fxk_", "FxK_")))
+        fx("malformed-constant", "valueRef-constant-type-with-length-2", True,
+           lambda s, mg: (fx_enums(s), s.types.append(S.Type("FxK_", "uint8", presence="constant", value_ref="FxE8_.one", length=2)),
+                          field(mg, "fxk_", "FxK_")))
+        fx("unknown-reference", "type-valueRef-enum", True,
+           lambda s, mg: (s.types.append(S.Type("FxK_", "uint8", presence="constant", value_ref="NoEnum_.x")), field(mg, "fxk_", "FxK_")))
+        fx("unknown-reference", "type-valueRef-enumerator", True,
+           lambda s, mg: (fx_enums(s), s.types.append(S.Type("FxK_", "uint8", presence="constant", value_ref="FxE8_.nope")),
+                          field(mg, "fxk_", "FxK_")))
+        fx("wrong-kind-reference", "type-valueRef-names-a-type", True,
+           lambda s, mg: (s.types.append(S.Type("FxT_", "uint8")),
+                          s.types.append(S.Type("FxK_", "uint8", presence="constant", value_ref="FxT_.x")), field(mg, "fxk_", "FxK_")))
+        fx("value-not-representable", "type-valueRef-value-beyond-primitive", True,
+           lambda s, mg: (fx_enums(s), s.types.append(S.Type("FxK_", "uint8", presence="constant", value_ref="FxE16_.big")),
+                          field(mg, "fxk_", "FxK_")))
+        fx("value-at-extreme", "type-valueRef-value-fits-primitive", False,
+           lambda s, mg: (fx_enums(s), s.types.append(S.Type("FxK_", "uint8", presence="constant", value_ref="FxE16_.small")),
+                          field(mg, "fxk_", "FxK_")))
+        # enum / set encodings must be scalar types of the right kind
+        fx("wrong-kind-reference", "enum-encodingType-array", True,
+           lambda s, mg: (s.types.append(S.Type("FxA_", "uint8", length=2)),
+                          s.types.append(S.Enum("FxE_", "FxA_", [S.EnumValue("a", "1")])), field(mg, "fxk_", "FxE_")))
+        fx("value-at-extreme", "enum-encodingType-length-1", False,
+           lambda s, mg: (s.types.append(S.Type("FxA_", "uint8", length=1)),
+                          s.types.append(S.Enum("FxE_", "FxA_", [S.EnumValue("a", "1")])), field(mg, "fxk_", "FxE_")))
+        fx("wrong-kind-reference", "enum-encodingType-enum", True,
+           lambda s, mg: (fx_enums(s), s.types.append(S.Enum("FxE_", "FxE8_", [S.EnumValue("a", "1")])), field(mg, "fxk_", "FxE_")))
+        fx("wrong-kind-reference", "set-encodingType-array", True,
+           lambda s, mg: (s.types.append(S.Type("FxA_", "uint8", length=2)),
+                          s.types.append(S.SetT("FxS_", "FxA_", [S.Choice("a", 0)])), field(mg, "fxk_", "FxS_")))
+        fx("value-at-extreme", "set-encodingType-length-1", False,
+           lambda s, mg: (s.types.append(S.Type("FxA_", "uint8", length=1)),
+                          s.types.append(S.SetT("FxS_", "FxA_", [S.Choice("a", 0)])), field(mg, "fxk_", "FxS_")))
+        fx("wrong-kind-reference", "set-encodingType-composite", True,
+           lambda s, mg: (s.types.append(S.Composite("FxC_", [S.Type("one", "uint8")])),
+                          s.types.append(S.SetT("FxS_", "FxC_", [S.Choice("a", 0)])), field(mg, "fxk_", "FxS_")))
+        fx("wrong-kind-reference", "set-encodingType-enum", True,
+           lambda s, mg: (fx_enums(s), s.types.append(S.SetT("FxS_", "FxE8_", [S.Choice("a", 0)])), field(mg, "fxk_", "FxS_")))
+        fx("wrong-kind-reference", "set-encodingType-float", True,
+           lambda s, mg: (s.types.append(S.SetT("FxS_", "float", [S.Choice("a", 0)])), field(mg, "fxk_", "FxS_")))
+        fx("wrong-kind-reference", "set-encodingType-char", True,
+           lambda s, mg: (s.types.append(S.SetT("FxS_", "char", [S.Choice("a", 0)])), field(mg, "fxk_", "FxS_")))
+        # names of <ref> elements and of set choices go through the SBE name rule too
+        for bn in BAD_NAMES[:3]:
+            fx("invalid-name", "ref-element/" + bn, True,
+               lambda s, mg, bn=bn: (s.types.append(S.Type("FxT_", "uint8")),
+                                     s.types.append(S.Composite("FxC_", [S.Type("one", "uint8"), S.Ref(bn, "FxT_")])),
+                                     field(mg, "fxk_", "FxC_")))
+            fx("invalid-name", "choice/" + bn, True,
+               lambda s, mg, bn=bn: (s.types.append(S.SetT("FxS_", "uint8", [S.Choice("a", 0), S.Choice(bn, 1)])),
+                                     field(mg, "fxk_", "FxS_")))
+            fx("invalid-name", "validValue/" + bn, True,
+               lambda s, mg, bn=bn: (s.types.append(S.Enum("FxE_", "uint8", [S.EnumValue("a", "1"), S.EnumValue(bn, "2")])),
+                                     field(mg, "fxk_", "FxE_")))
+            fx("invalid-name", "inline-enum-in-composite/" + bn, True,
+               lambda s, mg, bn=bn: (s.types.append(S.Composite("FxC_", [S.Type("one", "uint8"), S.Enum(bn, "uint8", [S.EnumValue("a", "1")])])),
+                                     field(mg, "fxk_", "FxC_")))
+            fx("invalid-name", "inline-set-in-composite/" + bn, True,
+               lambda s, mg, bn=bn: (s.types.append(S.Composite("FxC_", [S.Type("one", "uint8"), S.SetT(bn, "uint8", [S.Choice("a", 0)])])),
+                                     field(mg, "fxk_", "FxC_")))
+            fx("invalid-name", "inline-composite-in-composite/" + bn, True,
+               lambda s, mg, bn=bn: (s.types.append(S.Composite("FxC_", [S.Type("one", "uint8"), S.Composite(bn, [S.Type("x", "uint8")])])),
+                                     field(mg, "fxk_", "FxC_")))
+        fx("valid-name", "ref-element-choice-validValue", False,
+           lambda s, mg: (s.types.append(S.Type("FxT_", "uint8")),
+                          s.types.append(S.Composite("FxC_", [S.Type("one", "uint8"), S.Ref("r_9", "FxT_"),
+                                                              S.SetT("s_9", "uint8", [S.Choice("c_9", 0)]),
+                                                              S.Enum("e_9", "uint8", [S.EnumValue("v_9", "1")])])),
+                          field(mg, "fxk_", "FxC_")))
+        # a level-header member given as <ref> must refer to a <type>
+        hdr = next((t for t in schema.types if t.kind == "composite" and t.name.lower() == schema.eff_header().lower()), None)
+        if hdr is not None and any(e.name == "version" for e in hdr.elements):
+            hi_ = schema.types.index(hdr)
+            add("wrong-kind-reference", "message-header-member-ref-to-enum", True, "pubtype", hi_,
+                lambda t_, s: (fx_enums(s), _replace_member(t_, "version", S.Ref("version", "FxE16_"))))
+            add("wrong-kind-reference", "message-header-member-ref-to-composite", True, "pubtype", hi_,
+                lambda t_, s: (s.types.append(S.Composite("FxC_", [S.Type("one", "uint16")])),
+                               _replace_member(t_, "version", S.Ref("version", "FxC_"))))
+            add("unknown-reference", "message-header-member-ref", True, "pubtype", hi_,
+                lambda t_, s: _replace_member(t_, "version", S.Ref("version", "NoSuchT_")))
+            add("value-at-extreme", "message-header-member-ref-to-type", False, "pubtype", hi_,
+                lambda t_, s: (s.types.append(S.Type("FxV_", "uint16")), _replace_member(t_, "version", S.Ref("version", "FxV_"))))
+
     # cap per (rule, where)
     byk = {}
     for e in edits:
